@@ -176,7 +176,27 @@ pub fn emit(out: &mut Out, cfg: &Cfg, pairs: &[Pair]) {
         if term_str(la) == term_str(lb) || (is_const(la) && is_const(lb)) { out.trivial(id); }
     }
     let all_ok = sts.iter().all(|s| *s == Status::Ok);
-    if sts.contains(&Status::Cyclic) { return; }
+    // the same sequence while the process-wide stop flag is set (a query that timed out leaves it set until the next
+    // query is built, and built-in unifications of a rule body still run after the timer fired): unification must
+    // not depend on it
+    {
+        let saved = get_var_id();
+        stop_query();
+        let (sts2, sets2) = run_impl(pairs);
+        start_query();
+        set_var_id(saved);
+        out.stat("also_run_with_stop_flag_set", 1);
+        let same = sts2 == sts && enc_subst(sets2.last().unwrap()) == enc_subst(last_ss);
+        if cfg.want("C08") && sts2.contains(&Status::Cyclic) && !sts.contains(&Status::Cyclic) {
+            out.oracle(id, "C08", false, "with the stop flag set the sequence ends in a substitution set whose binding chains do not end");
+        } else if !same {
+            for p in ["C06", "C08"] { if cfg.want(p) { out.oracle(id, p, false, &format!("with the stop flag set the sequence gives a different result (`{}` and another substitution set, instead of `{}`)", status_str(&sts2), status_str(&sts))); } }
+        }
+    }
+    if sts.contains(&Status::Cyclic) {
+        if cfg.want("C08") { out.oracle(id, "C08", false, "a binding chain does not end after a successful unification"); }
+        return;
+    }
     let prefix_ok = sts.len() == pairs.len() && sts[..sts.len()-1].iter().all(|s| *s == Status::Ok);
     let k = pairs.len();
     let (a, b) = &pairs[k - 1];
